@@ -29,6 +29,8 @@ pub struct SymMod {
   pub own: Vec<String>,
   /// star re-export targets (index of the module, or None when it does not exist)
   pub stars: Vec<Option<usize>>,
+  /// ground truth: (path of an ambient namespace from the module, the names it exports)
+  pub ambient: Vec<(Vec<String>, Vec<String>)>,
 }
 
 #[derive(Clone, Debug)]
@@ -46,6 +48,7 @@ pub fn gen_sym_world(rng: &mut Rng, idx: usize) -> SymWorld {
     let mut text = String::new();
     let mut own: Vec<String> = vec![];
     let mut stars: Vec<Option<usize>> = vec![];
+    let mut ambient: Vec<(Vec<String>, Vec<&'static str>)> = vec![];
     let mut add = |own: &mut Vec<String>, name: &str| {
       if !own.iter().any(|x| x == name) {
         own.push(name.to_string());
@@ -71,10 +74,21 @@ pub fn gen_sym_world(rng: &mut Rng, idx: usize) -> SymWorld {
           add(&mut own, &id);
         }
         2 => {
+          // an instance member and a static member may share a name, in either order
+          let same = match rng.below(4) {
+            0 => "value = 1; static value = \"s\"; ",
+            1 => "static value = \"s\"; value = 1; ",
+            2 => "both(): void {} static both(): void {} ",
+            _ => "",
+          };
           text.push_str(&format!(
-            "export class {} {{ static s = 1; #hidden = 2; private p = 1; constructor(public q: number) {{}} m(): void {{}} get g() {{ return 1; }} set g(v) {{}} static sm() {{}} }}\n",
-            id
+            "export class {} {{ {}static s = 1; #hidden = 2; private p = 1; constructor(public q: number) {{}} m(): void {{}} get g() {{ return 1; }} set g(v) {{}} static sm() {{}} }}\n",
+            id, same
           ));
+          if rng.chance(1, 3) {
+            // declaration merging: an interface of the same name contributes instance members
+            text.push_str(&format!("export interface {} {{ s: number; extra: string }}\n", id));
+          }
           add(&mut own, &id);
         }
         3 => {
@@ -162,6 +176,19 @@ pub fn gen_sym_world(rng: &mut Rng, idx: usize) -> SymWorld {
           text.push_str(&format!("export abstract class {} {{ abstract am(): void; protected pm() {{}} declare d: string; }}\n", id));
           add(&mut own, &id);
         }
+        19 if rng.chance(1, 2) => {
+          // an ambient namespace: whatever is declared inside it, at any depth, is exported from its
+          // namespace, with or without the keyword
+          text.push_str(&format!(
+            "export declare namespace {} {{ namespace Inner {{ const hidden: number; function f(): void; interface I {{ a: string }} namespace Deepest {{ type T = string; }} export const visible: number; }} const top: number; export namespace Exp {{ const e: number; }} }}\n",
+            id
+          ));
+          add(&mut own, &id);
+          ambient.push((vec![id.clone()], vec!["Inner", "top", "Exp"]));
+          ambient.push((vec![id.clone(), "Inner".into()], vec!["hidden", "f", "I", "Deepest", "visible"]));
+          ambient.push((vec![id.clone(), "Inner".into(), "Deepest".into()], vec!["T"]));
+          ambient.push((vec![id.clone(), "Exp".into()], vec!["e"]));
+        }
         19 => {
           text.push_str(&format!("export declare function {}(x: number): string;\nexport declare const {}c: number;\ndeclare global {{ interface Window {{ {}w: number }} }}\n", id, id, id));
           add(&mut own, &id);
@@ -184,7 +211,7 @@ pub fn gen_sym_world(rng: &mut Rng, idx: usize) -> SymWorld {
         }
       }
     }
-    mods.push(SymMod { url: format!("file:///m{}.ts", i), text, own, stars });
+    mods.push(SymMod { url: format!("file:///m{}.ts", i), text, own, stars, ambient: ambient.into_iter().map(|(p, e)| (p, e.into_iter().map(|x| x.to_string()).collect())).collect() });
   }
   // named imports / re-exports of names another module exports only through (chains of) star re-exports
   {
@@ -373,7 +400,7 @@ pub fn child(seed: u64, idx: usize, corpus_file: Option<&str>) {
       let mods: Vec<SymMod> = mods
         .into_iter()
         .filter(|(n, _)| n.ends_with(".ts") || n.ends_with(".tsx") || n.ends_with(".js") || n.ends_with(".mts") || n.ends_with(".d.ts"))
-        .map(|(n, t)| SymMod { url: if n.contains("://") { n } else { format!("file:///{}", n.trim_start_matches('/')) }, text: t, own: vec![], stars: vec![] })
+        .map(|(n, t)| SymMod { url: if n.contains("://") { n } else { format!("file:///{}", n.trim_start_matches('/')) }, text: t, own: vec![], stars: vec![], ambient: vec![] })
         .collect();
       (SymWorld { mods, alias_cycle: false }, vec![], vec![], vec![], vec![])
     }
@@ -412,6 +439,18 @@ pub fn child(seed: u64, idx: usize, corpus_file: Option<&str>) {
       let wv: BTreeSet<&String> = m.own.iter().collect();
       if g != wv {
         out_fail.push(("own-exports-differ-from-source".into(), format!("{}: table {:?}, source declares {:?}\n{}", m.url, got, m.own, m.text)));
+      }
+      // exports of ambient namespaces, at every depth, against the generator's ground truth
+      for (path, want) in &m.ambient {
+        let mut sym = Some(module.module_symbol());
+        for seg in path {
+          sym = sym.and_then(|s| s.exports().get(seg)).and_then(|id| module.symbol(*id));
+        }
+        let got: BTreeSet<String> = sym.map(|s| s.exports().keys().cloned().collect()).unwrap_or_default();
+        let want: BTreeSet<String> = want.iter().cloned().collect();
+        if got != want {
+          out_fail.push(("ambient-namespace-exports-differ-from-source".into(), format!("{}: namespace {} exports {:?}, the source declares {:?}", m.url, path.join("."), got, want)));
+        }
       }
       // resolved exports against the model
       let mods_sexp: Vec<String> = w
